@@ -186,17 +186,16 @@ Qed.
 
 Lemma pv_add_shape raw vals : exists vals1, pv_add raw vals = vals1 ++ [raw] /\ Permutation vals1 vals.
 Proof.
-  unfold pv_add.
   assert (Hs : forall l, Permutation (isort l) l).
   { induction l as [|x l IH]; simpl; [reflexivity|].
     assert (Hi : forall y l0, Permutation (ins y l0) (y :: l0)).
     { intros y l0. induction l0 as [|z l0 IH0]; simpl; [reflexivity|]. destruct (Z.leb y z); [reflexivity|].
       etransitivity; [apply perm_skip; exact IH0|apply perm_swap]. }
     etransitivity; [apply Hi|apply perm_skip; exact IH]. }
-  destruct (Nat.ltb 0 (length vals) && Nat.eqb (length vals mod 64) 0); [|eexists; split; reflexivity].
-  destruct (Nat.eqb (snd (seg_item_indexes (length vals))) 0); [|eexists; split; reflexivity].
-  eexists; split; [reflexivity|].
-  etransitivity; [apply Permutation_app_head; apply Hs|]. rewrite firstn_skipn. reflexivity.
+  unfold pv_add. eexists; split; [reflexivity|]. unfold sort_slice.
+  set (f := fst (sort_range (length vals))). set (d := snd (sort_range (length vals))).
+  rewrite <- (firstn_skipn f vals) at 4. apply Permutation_app_head.
+  rewrite <- (firstn_skipn d (skipn f vals)) at 3. apply Permutation_app_tail. apply Hs.
 Qed.
 
 Lemma m_remove_placed ord t g gs n :
